@@ -5,7 +5,7 @@ From Coq Require Import String PrimFloat Permutation Sorted.
 From PV Require Import Lib.Common Lib.FloatK Lib.C16_Spec Model.C16_Store Model.C16_Heap Model.C16_Codec Gen.C16_Fields
                        Gen.C16_Kernel Model.C16_Kernel Model.C16_Maps Proofs.C16_Maps
                        Proofs.C16_Utf8 Proofs.C16_Store Proofs.C16_Nested Proofs.C16_Tables Proofs.C16_Heap Proofs.C16_Alias Proofs.C16_Codec Proofs.C16_Kernel
-                       Model.C16_Multi Proofs.C16_Frame.
+                       Model.C16_Multi Proofs.C16_Frame Model.C16_Vcf Proofs.C16_Vcf.
 Local Open Scope Z_scope.
 
 (** ** labels: every string of unicode scalar values survives the UTF-8 storage of HDF5 (non-ASCII labels included) *)
@@ -208,6 +208,59 @@ Theorem C16_vcf_import_grouped : forall (phased : bool) (n : nat) (recs : list v
   /\ vo_meta (vcf_import phased n recs true) = Some (grp_meta (map vchrom rs)).
 Proof. exact vcf_import_grouped. Qed.
 Print Assumptions C16_vcf_import_grouped.
+
+(** ** VCF import from the text of the file.  [vcf_text_import] builds each record from the attributes cyvcf2 derives from a data line
+    (CHROM, POS, start, end, ID) through the selectors regenerated from BOTH from_vcf bodies (the k_vcf_ definitions of Gen/C16_Kernel.v), so these
+    statements are about the attribute each field is read from in the current source *)
+Theorem C16_kernel_vcf_fields : forall (phased : bool) (l : vline),
+  rec_of_line phased l = mkV (l_chrom l) (wrap32 (l_pos l)) (Some (id_text l)) (l_gt l)
+  /\ layout_ok true = true /\ layout_ok false = true.
+Proof. intros phased l. split; [apply rec_of_line_model | exact layout_current]. Qed.
+Print Assumptions C16_kernel_vcf_fields.
+
+(** every array is the file, line by line — CHROM, POS, ID ('.' read as "None"), the GT calls — whatever REF and ALT are
+    (deletions, insertions, MNPs, several ALT alleles), for every coordinate a 32-bit POS holds *)
+Theorem C16_vcf_text_import_exact : forall (phased : bool) (n : nat) (lines : list vline),
+  Forall in_range32 lines ->
+  let o := vcf_text_import phased n lines false in
+  vo_chr o = map l_chrom lines /\ vo_pos o = map l_pos lines /\ vo_name o = map id_text lines /\ vo_meta o = None
+  /\ (forall i j, (i < n)%nat -> (j < length lines)%nat ->
+        let g := nth i (l_gt (nth j lines dline)) (0, 0) in
+        if phased then nth j (nth i (nth 0 (vo_mat o) []) []) 0 = fst g /\ nth j (nth i (nth 1 (vo_mat o) []) []) 0 = snd g
+        else nth j (nth i (nth 0 (vo_mat o) []) []) 0 = fst g + snd g).
+Proof. exact vcf_text_import_exact. Qed.
+Print Assumptions C16_vcf_text_import_exact.
+Example C16_vcf_text_hyps_satisfiable :
+  Forall in_range32 w_lines /\ vo_pos (vcf_text_import true 2 w_lines false) = [100; 50; 2147483647]
+  /\ vo_pos (vcf_text_import false 2 w_lines true) = [50; 2147483647; 100].
+Proof. split; [exact w_lines_in_range | exact w_lines_result]. Qed.
+
+Theorem C16_vcf_text_import_grouped : forall (phased : bool) (n : nat) (lines : list vline),
+  let recs := map (rec_of_line phased) lines in
+  let rs := isort vkey_leb recs in
+  Permutation rs recs /\ StronglySorted (fun a b => vkey_leb a b = true) rs
+  /\ vo_mat (vcf_text_import phased n lines true) = vo_mat (vcf_import phased n rs false)
+  /\ vo_chr (vcf_text_import phased n lines true) = map vchrom rs /\ vo_pos (vcf_text_import phased n lines true) = map vpos rs
+  /\ vo_name (vcf_text_import phased n lines true) = vo_name (vcf_import phased n rs false)
+  /\ vo_meta (vcf_text_import phased n lines true) = Some (grp_meta (map vchrom rs)).
+Proof. exact vcf_text_import_grouped. Qed.
+Print Assumptions C16_vcf_text_import_grouped.
+
+(** REF and ALT play no part: files that agree in CHROM, POS, ID and the calls import to the same object (both importers, both
+    values of auto_group_vrnt); a position read from [variant.end] would move with the length of REF *)
+Theorem C16_vcf_ref_alt_irrelevant : forall (phased : bool) (n : nat) (auto_group : bool) (ls ls' : list vline),
+  map line_core ls = map line_core ls' -> vcf_text_import phased n ls auto_group = vcf_text_import phased n ls' auto_group.
+Proof. exact vcf_text_import_ref_alt_irrelevant. Qed.
+Print Assumptions C16_vcf_ref_alt_irrelevant.
+Example C16_vcf_ref_alt_hyps_satisfiable :
+  exists ls ls', ls <> ls' /\ map line_core ls = map line_core ls'.
+Proof. exists [mkL 1 5 None [65] [67] [(0, 1)]], [mkL 1 5 None [65; 67; 71] [65] [(0, 1)]]. split; [discriminate | reflexivity]. Qed.
+
+(** known finding C16-vcf-pos-int32-wrap: a coordinate beyond 2^31 - 1 is not reproduced by either importer *)
+Theorem C16_vcf_text_pos_refuted :
+  exists l : vline, l_pos l = 2147483648 /\ forall ph ag, vo_pos (vcf_text_import ph 1 [l] ag) = [-2147483648].
+Proof. exact vcf_text_pos_refuted. Qed.
+Print Assumptions C16_vcf_text_pos_refuted.
 
 (** the group metadata tiles the chromosome array: expanding (name, length) gives it back, lengths are positive *)
 Theorem C16_group_runs : forall l i, flat_map (fun e => repeat (fst (fst e)) (Z.to_nat (snd e))) (runs l i) = l /\ Forall (fun e => 0 < snd e) (runs l i).
